@@ -131,7 +131,8 @@ def parseGraph (j : Json) : Except String Graph := do
   let cfgStop := (jOptField j "cfg_stop").bind jInt?
   let anyOutput := (jBoolField? j "trig_any_output").getD true
   let triggerUnpooled := (jBoolField? j "trig_unpooled").getD true
-  return { icp, fcp, start, runahead, tasks, seqs, stopPoint, cfgStop, anyOutput, triggerUnpooled }
+  let rowInsertMode := (jNatField? j "row_insert_mode").getD 0
+  return { icp, fcp, start, runahead, tasks, seqs, stopPoint, cfgStop, anyOutput, triggerUnpooled, rowInsertMode }
 
 def parseTaskId (s : String) : Except String (Int × String) :=
   match s.splitOn "/" with
